@@ -146,20 +146,20 @@ func engaDrawConfig(t *rapid.T, minNodes, maxNodes, minAccts, maxAccts, maxByz i
 type engaProfile struct {
 	Name                                                                                               string
 	wBenign, wDeliver, wLocal, wTimeout, wFast, wClock, wDrop, wPartition, wHeal, wCrash, wRestart    int
-	wCatchup, wByz, wTickAll, wDisk, wRedeliver                                                        int
+	wCatchup, wByz, wTickAll, wDisk, wRedeliver, wHold                                                 int
 	fifo                                                                                               int // percent of deliveries taken from the head of the pool
 	dup                                                                                                int // percent of deliveries that leave a duplicate behind
 	burst                                                                                              int // length of benign bursts
 }
 
 var engaProfiles = []engaProfile{
-	{Name: "mostly-benign", wBenign: 60, wDeliver: 10, wLocal: 10, wTimeout: 4, wFast: 1, wClock: 2, wDrop: 2, wPartition: 1, wHeal: 2, wCrash: 2, wRestart: 4, wCatchup: 1, wByz: 4, wTickAll: 2, wDisk: 2, wRedeliver: 1, fifo: 80, dup: 3, burst: 12},
-	{Name: "reorder", wBenign: 10, wDeliver: 45, wLocal: 25, wTimeout: 4, wFast: 1, wClock: 2, wDrop: 2, wPartition: 1, wHeal: 2, wCrash: 1, wRestart: 4, wCatchup: 1, wByz: 4, wTickAll: 2, wDisk: 3, wRedeliver: 2, fifo: 20, dup: 10, burst: 6},
-	{Name: "lossy", wBenign: 30, wDeliver: 15, wLocal: 15, wTimeout: 6, wFast: 1, wClock: 2, wDrop: 16, wPartition: 1, wHeal: 2, wCrash: 1, wRestart: 4, wCatchup: 2, wByz: 4, wTickAll: 6, wDisk: 2, wRedeliver: 1, fifo: 60, dup: 3, burst: 8},
-	{Name: "partition", wBenign: 45, wDeliver: 10, wLocal: 10, wTimeout: 5, wFast: 2, wClock: 2, wDrop: 2, wPartition: 6, wHeal: 3, wCrash: 1, wRestart: 4, wCatchup: 2, wByz: 4, wTickAll: 8, wDisk: 2, wRedeliver: 1, fifo: 70, dup: 3, burst: 15},
-	{Name: "crashy", wBenign: 40, wDeliver: 10, wLocal: 12, wTimeout: 4, wFast: 1, wClock: 2, wDrop: 2, wPartition: 1, wHeal: 2, wCrash: 10, wRestart: 10, wCatchup: 2, wByz: 3, wTickAll: 4, wDisk: 6, wRedeliver: 1, fifo: 70, dup: 3, burst: 8},
-	{Name: "timeouts", wBenign: 35, wDeliver: 8, wLocal: 8, wTimeout: 14, wFast: 5, wClock: 5, wDrop: 4, wPartition: 1, wHeal: 2, wCrash: 1, wRestart: 4, wCatchup: 1, wByz: 3, wTickAll: 14, wDisk: 2, wRedeliver: 1, fifo: 70, dup: 3, burst: 10},
-	{Name: "byzantine", wBenign: 40, wDeliver: 10, wLocal: 10, wTimeout: 5, wFast: 1, wClock: 2, wDrop: 3, wPartition: 1, wHeal: 2, wCrash: 1, wRestart: 4, wCatchup: 1, wByz: 22, wTickAll: 5, wDisk: 2, wRedeliver: 1, fifo: 70, dup: 3, burst: 8},
+	{Name: "mostly-benign", wBenign: 60, wDeliver: 10, wLocal: 10, wTimeout: 4, wFast: 1, wClock: 2, wDrop: 2, wPartition: 1, wHeal: 2, wCrash: 2, wRestart: 4, wCatchup: 1, wByz: 4, wTickAll: 2, wDisk: 2, wRedeliver: 1, wHold: 2, fifo: 80, dup: 3, burst: 40},
+	{Name: "reorder", wBenign: 10, wDeliver: 45, wLocal: 25, wTimeout: 4, wFast: 1, wClock: 2, wDrop: 2, wPartition: 1, wHeal: 2, wCrash: 1, wRestart: 4, wCatchup: 1, wByz: 4, wTickAll: 2, wDisk: 3, wRedeliver: 2, wHold: 2, fifo: 20, dup: 10, burst: 12},
+	{Name: "lossy", wBenign: 30, wDeliver: 15, wLocal: 15, wTimeout: 6, wFast: 1, wClock: 2, wDrop: 16, wPartition: 1, wHeal: 2, wCrash: 1, wRestart: 4, wCatchup: 2, wByz: 4, wTickAll: 6, wDisk: 2, wRedeliver: 1, wHold: 6, fifo: 60, dup: 3, burst: 25},
+	{Name: "partition", wBenign: 45, wDeliver: 10, wLocal: 10, wTimeout: 5, wFast: 2, wClock: 2, wDrop: 2, wPartition: 6, wHeal: 3, wCrash: 1, wRestart: 4, wCatchup: 2, wByz: 4, wTickAll: 8, wDisk: 2, wRedeliver: 1, wHold: 4, fifo: 70, dup: 3, burst: 40},
+	{Name: "crashy", wBenign: 40, wDeliver: 10, wLocal: 12, wTimeout: 4, wFast: 1, wClock: 2, wDrop: 2, wPartition: 1, wHeal: 2, wCrash: 10, wRestart: 10, wCatchup: 2, wByz: 3, wTickAll: 4, wDisk: 6, wRedeliver: 1, wHold: 2, fifo: 70, dup: 3, burst: 25},
+	{Name: "timeouts", wBenign: 35, wDeliver: 8, wLocal: 8, wTimeout: 14, wFast: 5, wClock: 5, wDrop: 4, wPartition: 1, wHeal: 2, wCrash: 1, wRestart: 4, wCatchup: 1, wByz: 3, wTickAll: 14, wDisk: 2, wRedeliver: 1, wHold: 8, fifo: 70, dup: 3, burst: 25},
+	{Name: "byzantine", wBenign: 40, wDeliver: 10, wLocal: 10, wTimeout: 5, wFast: 1, wClock: 2, wDrop: 3, wPartition: 1, wHeal: 2, wCrash: 1, wRestart: 4, wCatchup: 1, wByz: 22, wTickAll: 5, wDisk: 2, wRedeliver: 1, wHold: 3, fifo: 70, dup: 3, burst: 25},
 }
 
 // engaSched drives one case: every decision is a rapid draw, so the whole schedule shrinks as one value.
@@ -172,7 +172,20 @@ type engaSched struct {
 	allowCrash, allowDrop, allowPartition bool
 	crashAfterAttest int // node index armed for "crash right after its next attest", -1 = none
 	crashPhase       int
+	crashDown        int
 	watch            *engaAttestWatch
+	holds            []engaHold
+	healAt           int         // event count at which the current partition heals by itself (0 = never)
+	restartAt        map[int]int // node -> event count at which it is restarted
+}
+
+// engaHold delays one class of messages (to a set of destinations) for a number of events; at expiry the held
+// messages are released or lost. An asynchronous network may do either.
+type engaHold struct {
+	cls     int
+	dstMask int
+	until   int
+	drop    bool
 }
 
 func engaNewSched(t *rapid.T, s *engaSim) *engaSched {
@@ -182,6 +195,15 @@ func engaNewSched(t *rapid.T, s *engaSim) *engaSched {
 	sc.byz = &engaAdversary{s: s}
 	sc.watch = &engaAttestWatch{}
 	s.obs = append(s.obs, sc.watch)
+	sc.restartAt = map[int]int{}
+	s.hold = func(m *engaMsg) bool {
+		for _, h := range sc.holds {
+			if h.cls == m.cls && h.dstMask&(1<<m.dst) != 0 {
+				return true
+			}
+		}
+		return false
+	}
 	return sc
 }
 
@@ -225,6 +247,7 @@ func (sc *engaSched) step() bool {
 		{p.wDisk, sc.actDisk},
 		{p.wCatchup, sc.actCatchup},
 		{p.wRedeliver, sc.actRedeliver},
+		{p.wHold, sc.actHold},
 	}
 	if sc.allowDrop {
 		acts = append(acts, wa{p.wDrop, sc.actDrop})
@@ -265,6 +288,34 @@ func (sc *engaSched) step() bool {
 // afterStep implements the armed "crash right after attest" bias: once the watched node has produced an attest,
 // crash it at the drawn phase of the persistence handshake.
 func (sc *engaSched) afterStep() {
+	ev := sc.s.stats.events
+	// expire message holds
+	for i := 0; i < len(sc.holds); {
+		h := sc.holds[i]
+		if ev < h.until {
+			i++
+			continue
+		}
+		sc.holds = append(sc.holds[:i:i], sc.holds[i+1:]...)
+		if h.drop {
+			for k := len(sc.s.pool) - 1; k >= 0; k-- {
+				if m := sc.s.pool[k]; m.cls == h.cls && h.dstMask&(1<<m.dst) != 0 {
+					sc.s.dropMsg(k)
+				}
+			}
+		}
+		sc.s.tracef("SCHED hold on class %d mask %b expired (drop=%v)", h.cls, h.dstMask, h.drop)
+	}
+	if sc.healAt > 0 && ev >= sc.healAt {
+		sc.healAt = 0
+		sc.actHeal()
+	}
+	for i, at := range sc.restartAt {
+		if ev >= at {
+			delete(sc.restartAt, i)
+			sc.s.restart(i)
+		}
+	}
 	if sc.crashAfterAttest < 0 {
 		return
 	}
@@ -291,7 +342,9 @@ func (sc *engaSched) afterStep() {
 		n.stepLoopback()
 	}
 	sc.s.tracef("SCHED crash-after-attest n%d phase %d", n.id, sc.crashPhase)
-	sc.s.crash(n.id)
+	if sc.s.crash(n.id) {
+		sc.restartAt[n.id] = ev + sc.crashDown
+	}
 	sc.crashAfterAttest = -1
 }
 
@@ -354,7 +407,7 @@ func (sc *engaSched) actRedeliver() bool {
 	}
 	sc.s.seq++
 	sc.s.stats.netDup++
-	sc.s.pool = append(sc.s.pool, &engaMsg{id: sc.s.seq, src: m.src, dst: dst, tag: m.tag, data: m.data})
+	sc.s.pool = append(sc.s.pool, &engaMsg{id: sc.s.seq, src: m.src, dst: dst, tag: m.tag, data: m.data, cls: m.cls})
 	return true
 }
 
@@ -501,6 +554,31 @@ func (sc *engaSched) actPartition() bool {
 	}
 	sc.s.stats.partitions++
 	sc.s.tracef("SCHED partition %v", sc.s.group)
+	if rapid.IntRange(0, 4).Draw(sc.t, "autoHeal") > 0 {
+		sc.healAt = sc.s.stats.events + rapid.IntRange(10, 200).Draw(sc.t, "healAfter")
+	}
+	return true
+}
+
+// actHold: the network delays one class of messages (proposal payloads, votes of one step, bundles) for a while.
+func (sc *engaSched) actHold() bool {
+	if len(sc.holds) >= 2 {
+		return false
+	}
+	classes := []int{engaClsPayload, int(soft), int(cert), int(next), engaClsBundle, int(soft), int(cert), int(propose)}
+	n := len(sc.s.nodes)
+	h := engaHold{
+		cls:     classes[rapid.IntRange(0, len(classes)-1).Draw(sc.t, "holdCls")],
+		dstMask: (1 << n) - 1,
+		until:   sc.s.stats.events + rapid.IntRange(20, 250).Draw(sc.t, "holdFor"),
+		drop:    rapid.Bool().Draw(sc.t, "holdDrop"),
+	}
+	if rapid.Bool().Draw(sc.t, "holdSome") {
+		h.dstMask = rapid.IntRange(1, (1<<n)-1).Draw(sc.t, "holdMask")
+	}
+	sc.holds = append(sc.holds, h)
+	sc.s.stats.holds++
+	sc.s.tracef("SCHED hold class %d mask %b until %d drop=%v", h.cls, h.dstMask, h.until, h.drop)
 	return true
 }
 
@@ -527,7 +605,13 @@ func (sc *engaSched) actCrash() bool {
 	i := sc.pick(up, "crashNode")
 	switch rapid.IntRange(0, 2).Draw(sc.t, "crashKind") {
 	case 0:
-		sc.s.crash(i)
+		if !sc.s.crash(i) {
+			return false
+		}
+		if rapid.IntRange(0, 3).Draw(sc.t, "autoRestart") > 0 {
+			sc.restartAt[i] = sc.s.stats.events + rapid.IntRange(0, 120).Draw(sc.t, "downFor")
+		}
+		return true
 	default:
 		// bias: crash right after this node's next attest, at a drawn phase of the persistence handshake
 		if sc.crashAfterAttest >= 0 {
@@ -535,6 +619,7 @@ func (sc *engaSched) actCrash() bool {
 		}
 		sc.crashAfterAttest = i
 		sc.crashPhase = rapid.IntRange(0, 3).Draw(sc.t, "crashPhase")
+		sc.crashDown = rapid.IntRange(0, 120).Draw(sc.t, "downFor")
 		sc.watch.attested[i] = 0
 	}
 	return true
@@ -663,6 +748,12 @@ func (s *engaSim) label(vk *vkCtx, prefix string) {
 	}
 	if st.netDup > 0 {
 		vk.Label(prefix + "duplicates")
+	}
+	if st.holds > 0 {
+		vk.Label(prefix + "class_delay")
+	}
+	if st.amnesiaExcluded > 0 {
+		vk.Label(prefix + "amnesia_crash_excluded")
 	}
 	if st.disconnects > 0 {
 		vk.Label(prefix + "disconnect_action")
